@@ -4,7 +4,7 @@ import itertools
 
 from . import common, pure
 
-PROOFS = ["proofs/SortProofs.v", "proofs/SortSorted.v", "proofs/UniqueProofs.v", "models/Sort.v", "models/Unique.v"]
+PROOFS = ["proofs/SortProofs.v", "proofs/SortSorted.v", "proofs/SortPivot.v", "proofs/UniqueProofs.v", "models/Sort.v", "models/Unique.v"]
 
 BR_NAMES = ["small_segment_insertion", "doPivot", "ninther", "dup_check", "protect_loop",
             "heapsort_fallback", "recurse_left_first", "recurse_right_first"]
@@ -269,12 +269,13 @@ def gen(rng, tier):
     return streams
 
 
-# ---------------------------------------------------------------- the unproved lemma, tested
+# ---------------------------------------------------------------- doPivot postcondition, also tested
 def pivot_hypothesis_test(chk, rng, tier):
-    """c15_sliceby_sorted_partial assumes srt_partition_ok (doPivot returns a three-zone
-    partition).  That lemma is not proved in Coq; here it is tested directly on the
-    extracted model function srt_do_pivot: segments [lo,hi) with hi-lo > 12 inside longer
-    arrays, all adversarial families, strict weak orders only."""
+    """srt_partition_ok (doPivot returns a three-zone partition) is proved in Coq
+    (proofs/SortPivot.v, c15_dopivot_partition).  It is additionally tested here on the
+    extracted model function srt_do_pivot (a sanity check of statement and extraction, and of
+    the stricter bound mlo < mhi): segments [lo,hi) with hi-lo > 12 inside longer arrays,
+    all adversarial families, strict weak orders only."""
     cases = []
     cnt = 1500 if tier == "quick" else 20000
     for _ in range(cnt):
@@ -310,7 +311,7 @@ def pivot_hypothesis_test(chk, rng, tier):
                     why = "three-zone postcondition violated"
         if why:
             bad += 1
-            chk.diverge("dopivot-partition-hypothesis", c, o, "", "hypothesis srt_partition_ok of c15_sliceby_sorted_partial refuted on the model: " + why)
+            chk.diverge("dopivot-partition-hypothesis", c, o, "", "doPivot postcondition (c15_dopivot_partition) refuted on the extracted model: " + why)
     chk.cov["dopivot_partition_hypothesis_tested"] = dict(cases=len(cases), violations=bad)
 
 
